@@ -265,7 +265,7 @@ func TestVerif_C14(t *testing.T) {
 	// ---- parent ----
 	var all []cgenSeed
 	for _, n := range c14TopLevel {
-		all = append(all, cgenSeeds(cgenByName[n], 1, 4096)...)
+		all = append(all, cgenSeedsSel(cgenByName[n], 1, 4096, !r.Thorough())...)
 	}
 	var units []cgenSeed
 	byUnit := map[uint64]cgenSeed{}
